@@ -32,6 +32,7 @@ def check(c: Check):
     if c.tier == 'thorough':
         clause_f(c)
     clause_g(c)
+    clause_h(c)
 
 
 # ---------------------------------------------------------------- a
@@ -733,3 +734,49 @@ def clause_g(c: Check):
     want = sum(1 for line in fm.src.splitlines() if '# EXPECT memo' in line)
     if len(got) != want:
         raise AnalysisError('C17-g: positive control failed: %d unkeyed memos reported in the fixture, expected %d' % (len(got), want))
+
+
+# ---------------------------------------------------------------- h
+def clause_h(c: Check):
+    """EVAL partition of the suite's [conf] section into what configures the suite and what is contributed to every
+    case (`_separate_configuration_elements`): every element of the section ends up in exactly one of the two parts -
+    none is dropped, none is in both.  Evaluated with one explicit element of each kind (and both answers to "is it
+    a suite configuration instruction")."""
+    from ..absint import ListVal
+    ix, fo = c.ix, c.fo
+    f = ix.func(SFR + ':_separate_configuration_elements')
+    et = fo.enum_members(ix.cls('exactly_lib.section_document.model:ElementType'))
+    sc = ix.cls('exactly_lib.section_document.model:SectionContents')
+    sce = ix.cls('exactly_lib.section_document.model:SectionContentElement')
+    n = 0
+    for kind, member in sorted(et.items()):
+        it = Interp(ix, fo, Hooks())
+        st = State()
+        element = it.new_obj(sce)
+        st.heap[(element.oid, 'element_type')] = K(member)
+        st.heap[(element.oid, '_element_type')] = K(member)
+        contents = it.new_obj(sc)
+        st.heap[(contents.oid, 'elements')] = ListVal([element], True)
+        for p in it.run_function(f, {f.positional_params()[0].arg: contents}, st):
+            n += 1
+            c.count()
+            parts = it.concrete_items(p.val) if p.kind == 'return' else None
+            c.require(parts is not None and len(parts) == 2,
+                      'C17-h: the result of _separate_configuration_elements is not a pair (%s)' % (
+                          util.describe(p.val) if p.kind == 'return' else p.kind))
+            holds = []
+            for part in parts:
+                con = util.constructed(ix, part)
+                arg = list(con[3].values())[0] if con and con[3] else None
+                inner = arg
+                r = util.root_sym(arg) if isinstance(arg, Sym) else None
+                if r is not None and r.origin and r.origin[0] == 'call' and str(r.origin[1]).endswith('tuple') and r.origin[2]:
+                    inner = r.origin[2][0]
+                items = it.concrete_items(inner) if inner is not None else None
+                c.require(items is not None, 'C17-h: a part of the separated section is not understood (%s)' % util.describe(part))
+                holds.append(sum(1 for x in items if x is element))
+            c.expect(sorted(holds) == [0, 1], 'C17-h', 'conf-section-partition/' + kind,
+                     'an element of kind %s of the suite\'s [conf] section is found %s times in the suite part and %s '
+                     'times in the part contributed to the cases (expected: in exactly one of them)' % (
+                         kind, holds[0], holds[1]), f.loc())
+    c.floor('C17-h', 'paths of the separation of the [conf] section', n, 3)
